@@ -877,5 +877,17 @@ V('C14', 'test-stat-names-case-insensitive', 'fire', 'C14.R2', 'statistic names 
 V('C14', 'test-stat-names-case-insensitive-everywhere', 'silent', '', 'statistic names looked up case-insensitively and the toy calculator compares the lower-cased name',
   ('src/pyhf/infer/utils.py', '        return _mapping[name]\n', '        return _mapping[str(name).lower()]\n'),
   ('src/pyhf/infer/calculators.py', "            1.0 if self.test_stat == 'q0' else 0.0,\n", "            1.0 if str(self.test_stat).lower() == 'q0' else 0.0,\n"))
+V('C20', 'model-writes-poi-override-into-measurement', 'fire', 'C20.R8', 'Workspace.model stores an explicit poi_name in the measurement it was read from',
+  ('src/pyhf/workspace.py', "        config_kwargs.setdefault('poi_name', measurement['config']['poi'])\n", "        if 'poi_name' in config_kwargs:\n            measurement['config']['poi'] = config_kwargs.pop('poi_name') or ''\n"),
+  ('src/pyhf/workspace.py', '        return Model(modelspec, **config_kwargs)\n', "        return Model(modelspec, poi_name=measurement['config']['poi'], **config_kwargs)\n"))
+V('C12', 'model-writes-poi-override-into-measurement', 'fire', 'C12.R12', 'Workspace.model stores an explicit poi_name in the measurement it was read from',
+  ('src/pyhf/workspace.py', "        config_kwargs.setdefault('poi_name', measurement['config']['poi'])\n", "        if 'poi_name' in config_kwargs:\n            measurement['config']['poi'] = config_kwargs.pop('poi_name') or ''\n"),
+  ('src/pyhf/workspace.py', '        return Model(modelspec, **config_kwargs)\n', "        return Model(modelspec, poi_name=measurement['config']['poi'], **config_kwargs)\n"))
+V('C16', 'model-writes-poi-override-into-measurement', 'fire', 'C16.R7', 'Workspace.model stores an explicit poi_name in the measurement it was read from',
+  ('src/pyhf/workspace.py', "        config_kwargs.setdefault('poi_name', measurement['config']['poi'])\n", "        if 'poi_name' in config_kwargs:\n            measurement['config']['poi'] = config_kwargs.pop('poi_name') or ''\n"),
+  ('src/pyhf/workspace.py', '        return Model(modelspec, **config_kwargs)\n', "        return Model(modelspec, poi_name=measurement['config']['poi'], **config_kwargs)\n"))
+V('C20', 'model-poi-through-a-local', 'silent', '', 'Workspace.model resolves the POI through a local variable',
+  ('src/pyhf/workspace.py', "        config_kwargs.setdefault('poi_name', measurement['config']['poi'])\n", "        poi_name = config_kwargs.pop('poi_name', measurement['config']['poi'])\n"),
+  ('src/pyhf/workspace.py', '        return Model(modelspec, **config_kwargs)\n', '        return Model(modelspec, poi_name=poi_name, **config_kwargs)\n'))
 V("C13", "code4-exponent-mask-strict", "fire", "C13.R3", "code 4 takes exponent 1 (a constant) exactly at |alpha| = alpha0",
   ("src/pyhf/interpolators/code4.py", "            exponents >= self.__alpha0, exponents, self.ones", "            exponents > self.__alpha0, exponents, self.ones"))
